@@ -1,5 +1,5 @@
 SPECIFICATION Spec
-CONSTANT Ns = {2, 3, 9, 10, 11, 12, 21, 101}
+CONSTANT Ns = {2, 3, 10, 11, 21, 101}
 CONSTANT LongNs = {2, 4}
 CONSTANT EmKinds = {"identity", "reversed", "rotated", "evenodd", "stride", "byname"}
 CONSTANT ProfKinds = {"asc", "zig", "pairs"}
